@@ -24,6 +24,8 @@ Toml(f) == f \in WatchedToml
 \* one notification per maximal run of identical consecutive toml writes (the kernel may merge those)
 \* - among the writes that raise an event at all: a write below a nested directory raises none on the four
 \* watches, so two writes of one file with only nested writes between them are still adjacent in the queue
+\* - "SYNC" after a write: the harness saw the watcher's log line for that write before going on, so the event had
+\* left the kernel queue and the next write of the same file cannot be merged with it
 MinNotes(ws) == LET es == SelectSeq(ws, LAMBDA f : f \notin Unconstrained)
                 IN Cardinality({i \in 1..Len(es) : Toml(es[i]) /\ (i = 1 \/ es[i - 1] # es[i])})
 MaxNotes(ws) == Cardinality({i \in 1..Len(ws) : Toml(ws[i]) \/ ws[i] \in Unconstrained})
